@@ -267,7 +267,9 @@ class C05(Check):
                    ("f_lock_wipes_wscripts", "lock_wipes_witness_scripts"), ("f_lock_wipes_last", "lock_wipes_last_addrs"),
                    ("f_unlock_skips_keyless", "unlock_skips_keyless_accounts"),
                    ("f_keyless_not_queued", "keyless_addresses_not_queued"),
-                   ("f_change_rejects_empty", "change_rejects_empty_private")]
+                   ("f_change_rejects_empty", "change_rejects_empty_private"),
+                   ("f_privkey_checks_first", "privkey_checks_lock_first"),
+                   ("f_unlock_preloads", "unlock_loads_queued_accounts")]
 
     def _facts(self):
         """the facts of the tree the harness was built from (same extractor as Generated/LockFacts.v)"""
